@@ -696,6 +696,10 @@ func (database *ChainDatabase) GetContractCode(hash common.Hash) (types.Code, er
 
 // SetContractCode saves contract's code
 func (database *ChainDatabase) SetContractCode(hash common.Hash, code types.Code) error {
+	// the write-ahead queue's append position is shared with SetConfirms (batch-confirm goroutine) and the block commit
+	database.RW.Lock()
+	defer database.RW.Unlock()
+
 	return database.Beansdb.Put(leveldb.ItemFlagCode, hash.Bytes(), code[:])
 }
 
